@@ -85,6 +85,7 @@ class StubEval:
         self.funcs = {}
         self.td_specs = {}
         self.td_nodes = {}
+        self.td_def_counts = {}
         self.class_defs = []
         self.syntax_error = None
         self.ns = {"__builtins__": builtins}
@@ -130,7 +131,10 @@ class StubEval:
         for node in body:
             if isinstance(node, ast.ClassDef):
                 if not path and self._is_typeddict_class(node):
-                    if node.name in self.td_nodes:
+                    self.td_def_counts[node.name] = self.td_def_counts.get(node.name, 0) + 1
+                    if node.name in self.td_nodes and ast.dump(node) == ast.dump(self.td_nodes[node.name]):
+                        pass  # the same class text again (two parameters of one name and one shape): denotes the same
+                    elif node.name in self.td_nodes:
                         self.events.append(("typeddict-class-name-collision", f"two TypedDict classes named {node.name}", "class " + node.name))
                         # keep both for the comparison of what was lost
                         self.td_nodes[node.name + "#dup"] = node
